@@ -808,8 +808,8 @@ def gen_api_programs(rng, n, names=None, max_dim=6):
     """n programs of the form  post*(call(pre))  : a small core program, ONE API call from harness/apicalls.py on top (round-robin
     over the table so that every entry is reached), then 0-2 core operations above it (they invite pushdowns through the
     call's expression).  Own family, so that the streams of gen_programs are left as they are."""
-    from apicalls import CALLS
-    order = sorted(names or CALLS)
+    from apicalls import CALLS, WEIGHTS
+    order = [nm for nm in sorted(names or CALLS) for _ in range(WEIGHTS.get(nm, 1))]
     made = tries = 0
     while made < n and tries < n * 20:
         tries += 1
